@@ -452,14 +452,14 @@ def gen_values(rng, n):
             {"v": {"k": "enum_str", "s": "ff", "mix": "strenum"}}, {"v": {"k": "enum_str", "s": "a b=c", "mix": "strenum"}}, {"v": {"k": "str", "s": "x y", "mix": "loud"}}]
     prefixes = list(BYVAL)
     # numbers of more than 28 significant digits that lie within a hair of an integer (a rounding to the decimal context's 28 digits makes
-    # them that integer), and numbers whose exponent is beyond the context's range (seed C13-r9-2)
+    # them that integer) (seed C13-r9-2; its other face, exponents beyond the context's range of ±999999, would need exact arithmetic on
+    # million-digit numbers on both sides and is left out)
     for p_ in (0, 3, -15):
         for k_ in (1, 2, 500, 2**40):
             for nd in (29, 31, 33, 40):
                 out.append({"v": P(k_ * 10 ** nd + 1, -nd, p_)})          # k.000…001
                 out.append({"v": P(k_ * 10 ** nd - 1, -nd, p_)})          # (k-1).999…999
                 out.append({"v": P(-(k_ * 10 ** nd + 1), -nd, p_)})
-        out += [{"v": P(1, -2000000, p_)}, {"v": P(15, -1000001, p_)}, {"v": P(7, 1000001, p_)}]
     for i in range(n):
         r = rng.random()
         if r < 0.55:
